@@ -9,6 +9,18 @@ CHECKS = {
    "Runs the real EncodeBody and Streaming over thousands of generated (messages, encoding, buffer settings, source readiness, chunking) cases and judges every execution with a reference framing parser, an independent decompressor and a byte-equality metamorphic oracle across schedules; thorough adds every single/double cut of small streams, a Miri leg over the unsafe EncodeBuf/advance_mut path and a memcheck leg over the zstd FFI. Right level because the property quantifies over inputs x schedules that cannot be enumerated; evidence lists the classes actually observed.",
    "Held only on the executions produced; oracles in harness/src/refc.rs and flate2/zstd (called directly) are trusted; Miri/memcheck cover only code the workload reaches.",
    "runtime monitoring: reference-model oracle over scripted schedules + Miri + valgrind memcheck", "DESIGN.md#c01"),
+ "C04": ("exploration",
+   "Round-trips generated statuses through the real add_header/into_http and from_header_map while independent codecs (percent, base64, RFC 9110 value rules) judge the wire values; feeds a grammar of corrupted header maps under catch_unwind; walks the HTTP-status table (100..=599) and the HTTP/2 error-code table exhaustively against tables transcribed from the gRPC docs.",
+   "Held on the executions produced; the two tables are exhaustive, the rest sampled; oracle tables transcribed by hand from doc/http-grpc-status-mapping.md and PROTOCOL-HTTP2.md#errors.",
+   "runtime monitoring: independent-codec oracle + totality under catch_unwind + exhaustive table walk", "DESIGN.md#c04"),
+ "C06": ("exploration",
+   "Drives the real decoder and encoder with limits placed at the exact wire length -1/0/+1 of a message at every position of a stream, in both directions/roles and all encodings, checks prompt refusal (by DATA-chunk count), OUT_OF_RANGE, delivery of earlier messages, a single final status with nothing after it, a 4 GiB item (thorough), and observes the largest single allocation with a counting allocator.",
+   "Held on the executions produced; the allocation bound has 1 MiB slack for decompressor internals so only reservations driven by the declared length are caught.",
+   "runtime monitoring: boundary-value workload + reference framing oracle + counting allocator", "DESIGN.md#c06"),
+ "C07": ("exploration",
+   "Feeds the real Streaming decoder mutated/hostile byte streams under generated chunkings, trailers and injected body errors, keeps polling 8 times after the first End/Err, and judges prefix-validity of yielded messages, must-fail/must-not-fail and finality with a reference parser; poll budgets and a body that parks after 64 post-end polls turn hangs and busy loops into observations; panics are caught per case.",
+   "Held on the executions produced; protobuf decodability is judged only for canonical encodings (prost may be stricter on others).",
+   "runtime monitoring: mutation workload + reference-parser oracle + poll-budget/hang monitors", "DESIGN.md#c07"),
 }
 
 NOT_YET = {}
